@@ -155,10 +155,16 @@ def gen_case(rng):
         poss = [rng.randint(1, L) for _ in range(Nv)]
         vs = [variation(rng, SR, chans, metas[p], M, T) for p in poss]
         s = regs.S()
-        bad = rng.random() < 0.12
-        a_poss = poss[:-1] if bad else poss
+        bad = rng.random() < 0.15
+        a_poss = poss
+        iters = [list(v[3]) for v in vs]
+        if bad:
+            if Nv > 1 and rng.random() < 0.5:
+                iters[0] = iters[0][:-1] if M > 1 else iters[0] + [0.5]      # value lists of different lengths
+            else:
+                a_poss = poss[:-1]                                          # one list of addresses shorter than the others
         prog += [("OSDescr", q), ("TRepeat", q, a_poss, [v[0] for v in vs], [v[1] for v in vs], [v[2] for v in vs],
-                                   [v[3] for v in vs], s), ("OSDescr", q), ("OSLen", s), ("OSCheck", s), ("OSDescr", s)]
+                                   iters, s), ("OSDescr", q), ("OSLen", s), ("OSCheck", s), ("OSDescr", s)]
         info.update({"vs": vs, "poss": poss, "L": L, "M": M, "bad": bad})
     return {"prog": prog, **info}
 
